@@ -270,7 +270,7 @@ fn c13(ctx: &Ctx, rep: &mut Report) {
     run_stdfs_transcript(&pass, &ra, &rb, rep, "every-method pass");
     let paths = namespace(&["a", "b", "c"], 3);
     let mut rng = ctx.rng("c13");
-    let n = if ctx.thorough { 5000 } else { 200 } / ctx.shards + 1;
+    let n = if ctx.thorough { 20_000 } else { 400 } / ctx.shards + 1;
     let len = if ctx.thorough { 200 } else { 100 };
     let mut uid = (ctx.shard as u64) << 40;
     for h in 0..n {
